@@ -49,6 +49,7 @@ func (w *World) createIterator(t *simcore.Task, wt *WTxn, ti int) bool {
 	ic := &IterCtx{id: len(w.iters) + len(wt.newIters) + wt.id*100, it: it, ti: ti, createRev: st.Rev, view: map[string]MObj{}, delSeen: map[string][]uint64{}}
 	st.Trackers++
 	wt.newIters = append(wt.newIters, ic)
+	w.allIters = append(w.allIters, ic)
 	w.S.Logf("T%d Changes(%s) -> iterator I%d at revision %d", wt.id, tc.M.Name, ic.id, st.Rev)
 	w.probe("iterator-created")
 	return true
@@ -218,7 +219,9 @@ func (w *World) viewEquals(ic *IterCtx, st *TableState) bool {
 // closeIterator closes the iterator (an internal write transaction on the table).
 func (w *World) closeIterator(t *simcore.Task, ic *IterCtx) bool {
 	ic.closing = true
-	w.tables[ic.ti].M.liveIters--
+	if ic.live {
+		w.tables[ic.ti].M.liveIters--
+	}
 	t.Op = "IterClose"
 	if tx := tctx(t); tx != nil {
 		tx.holding = []int{ic.ti}
